@@ -12,7 +12,7 @@ def ensure_machk():
     """(re)build the extracted checker if missing or older than its sources"""
     srcs = [os.path.join(COQ, "Extract", "Extract.v"), os.path.join(VERIF, "ocaml", "machk.ml"), os.path.join(VERIF, "ocaml", "crun.ml"),
             os.path.join(COQ, "Expr", "CArith.v"), os.path.join(COQ, "CSkel", "Store.v"), os.path.join(COQ, "CSkel", "Run.v"), os.path.join(COQ, "CSkel", "Safety.v")] + \
-           [os.path.join(COQ, "Machine", f) for f in ("Dfa.v", "Sem.v", "NoSpin.v", "Bisim.v", "Search.v", "Chunk.v", "Eof.v", "BBisim.v") if os.path.exists(os.path.join(COQ, "Machine", f))]
+           [os.path.join(COQ, "Machine", f) for f in ("Dfa.v", "Sem.v", "NoSpin.v", "Bisim.v", "Search.v", "Chunk.v", "Eof.v", "BBisim.v", "BSearch.v") if os.path.exists(os.path.join(COQ, "Machine", f))]
     CRUNP = os.path.join(VERIF, "ocaml", "crun")
     fresh = lambda: os.path.exists(MACHK) and os.path.exists(CRUNP) and all(min(os.path.getmtime(MACHK), os.path.getmtime(CRUNP)) >= os.path.getmtime(s) for s in srcs)
     if fresh():
@@ -20,7 +20,7 @@ def ensure_machk():
     with common.Lock("ocaml"):
         if fresh():
             return None
-        rc, out = common.coq_make(["Machine/Search.vo", "Machine/Chunk.vo", "Machine/Eof.vo", "CSkel/Run.vo", "CSkel/Safety.vo"] + (["Machine/BBisim.vo"] if os.path.exists(os.path.join(COQ, "Machine", "BBisim.v")) else []))
+        rc, out = common.coq_make(["Machine/Search.vo", "Machine/Chunk.vo", "Machine/Eof.vo", "CSkel/Run.vo", "CSkel/Safety.vo"] + (["Machine/BBisim.vo", "Machine/BSearch.vo"] if os.path.exists(os.path.join(COQ, "Machine", "BSearch.v")) else []))
         if rc != 0:
             return "coq build failed: " + out[-1500:]
         gen = os.path.join(VERIF, "ocaml", "gen")
@@ -72,6 +72,18 @@ def task_endsafe(m):
     return "endsafe\n" + export.text_dfa(m)
 
 
+def free_ids(I):
+    """ids of the primitives / tests that do not look at the current byte (may be moved by one position)"""
+    fp = [i for i, p in enumerate(I.prim_info) if not p.get("reads_last") and p["kind"] not in ("append",)]
+    ft = [i for i, t in enumerate(I.test_info) if not t.get("reads_last")]
+    return fp, ft
+
+
+def task_bbisim(m_eager, m_lazy, I):
+    fp, ft = free_ids(I)
+    return "bbisim %d %s %d %s\n%s\n%s" % (len(fp), " ".join(map(str, fp)), len(ft), " ".join(map(str, ft)), export.text_dfa(m_eager), export.text_dfa(m_lazy))
+
+
 def task_bisim(m1, m2):
     return "bisim\n" + export.text_dfa(m1) + "\n" + export.text_dfa(m2)
 
@@ -88,7 +100,7 @@ def coq_certs(dirname, items, per_file=8, timeout=900):
         part = items[fi:fi + per_file]
         L = [export.COQ_PRELUDE, "From NV Require Import Machine.Sem Machine.NoSpin Machine.Bisim Machine.Search."]
         if os.path.exists(os.path.join(COQ, "Machine", "BBisim.vo")):
-            L.append("From NV Require Import Machine.BBisim.")
+            L.append("From NV Require Import Machine.BBisim Machine.BSearch.")
         for k, (name, defs, cert, inst) in enumerate(part):
             L += defs
             L.append("Example cert_%d : %s = true. Proof. vm_compute. reflexivity. Qed." % (fi + k, cert))
